@@ -316,6 +316,52 @@ func init() {
 	}}
 	models["context.WithTimeout"] = withDeadline
 	models["context.WithDeadline"] = withDeadline
+	// verifDeadlineCtx(parent) (ctx, expire): a context that ends with DeadlineExceeded when expire is called
+	// (the harness decides when, so the native replay can do the same with a hand-made context type)
+	extraIntrinsics["verifDeadlineCtx"] = func(cc *CallCtx) bool {
+		e := cc.e
+		pr := ctxRefs(cc.args[0])
+		x := e.newCtx(cc.c, "deadline", pr, pr)
+		storeCell(x.Own, TS.False, cc.c.g)
+		if x.Deadline == nil {
+			x.Deadline = &Cell{T: types.Typ[types.Bool], Obj: x.Obj, Val: TS.False, Path: ".deadline"}
+		}
+		storeCell(x.Deadline, TS.False, cc.c.g)
+		id := -1
+		for i, y := range e.ctxs {
+			if y == x {
+				id = i
+			}
+		}
+		cc.finish(&StructV{F: []Value{ctxValue(x), refTo(&FuncVal{Model: "ctx.expire", Data: []Value{BV(uint64(id), 64)}})}})
+		return true
+	}
+	models["ctx.expire"] = &Model{Visible: true, Enabled: func(cc *CallCtx, ph int) *Term { return TS.True },
+		Exec: func(cc *CallCtx, ph int) (Value, bool) {
+			e := cc.e
+			x := e.ctxs[cc.args[0].(*Term).val]
+			g := cc.c.g
+			live := Not(e.ctxCancelled(x))
+			e.foot.write(x.Obj, g)
+			storeCell(x.Deadline, TS.True, And(g, live))
+			storeCell(x.Own, TS.True, And(g, live))
+			for _, r := range e.afters {
+				st := termOf(r.State)
+				var in *Term = TS.False
+				for _, a := range r.Ctx.Alts {
+					if y, ok := a.R.(*CtxObj); ok {
+						in = Or(in, And(a.G, e.descOf(y, x)))
+					}
+				}
+				fire := And(g, live, in, Eq(st, BV(0, 8)))
+				if fire.IsFalse() {
+					continue
+				}
+				e.foot.write(r.Obj, fire)
+				storeCell(r.State, BV(1, 8), fire)
+			}
+			return nil, true
+		}}
 	extraIntrinsics["verifFireDeadline"] = func(cc *CallCtx) bool {
 		id := cc.args[0].(*Term)
 		x := cc.e.ctxs[id.val]
